@@ -1,3 +1,4 @@
+#include <new>
 // c19_engine.hpp - glue between the repository's interpreter (oracle), the host-compiled ARM64 JIT back-end
 // and the A64 subset emulator: builds the shared memory images and runs ONE program buffer through both engines.
 // Compiled with -fno-access-control (program injection into the real VM classes).
@@ -162,6 +163,8 @@ public:
 		emu.set_code(jit.getCode(), buf_size);
 		if (env.cache) use_cache(env.cache);
 	}
+	// a brand-new compiler object (nothing left over from earlier programs), as a VM gets when it is created
+	void reset_jit() { jit.~JitCompilerA64(); new (&jit) randomx::JitCompilerA64(); emu.set_code(jit.getCode(), buf_size); randomx_cache* c = ss_cache; ss_cache = nullptr; if (c) use_cache(c); }
 	void use_cache(randomx_cache* c) { if (ss_cache != c) { jit.generateSuperscalarHash(c->programs, c->reciprocalCache); ss_cache = c; } }
 	uint8_t* isp;
 
